@@ -933,3 +933,4 @@ LEVEL_NOTE = ("the per-call theorems are stated for duplicate_name_allowed=True 
 TECHNIQUE = ("machine-checked proof (Lean 4) on an executable model + differential correspondence check against the real "
              "constructors (pandas and polars through the real libraries), model-free oracle on every case")
 RULE = RULE + ' Fourth session: two thirds of the pandas frames carry a non-default unique index (permuted integers / string labels), DataFrame.attrs belong to the input-unmodified comparison, an opaque float attribute column g (0.5, -2.25, +-inf, 1e300), one input of 1052 paths per constructor.'
+RULE = RULE + ' Fifth session: wide-parent histories with 66 and 130 children, half of the final calls go through the name that LEFT the parent.'
